@@ -20,6 +20,7 @@ and for the unchanged code it is contradicted by the confirmed deviations listed
 -/
 import Dawgs.Proofs.C01Sound
 import Dawgs.Proofs.C01Frag
+import Dawgs.Proofs.C01S2Sound
 namespace Dawgs.C01.Props
 open Dawgs Dawgs.Sql Dawgs.C01.Proofs
 
@@ -114,6 +115,68 @@ theorem c01_partial : C01_for tr := by
   obtain ⟨w, hw⟩ := tr_no_runtime_error km g q st ps hok h _ hm
   cases hw
 
+/-! ### stage S2a: one directed fixed hop — `tr2` = S1 ∪ S2a -/
+
+/-- bag agreement: the SQL rows are a permutation of the Cypher rows (stage S2a has no ORDER BY; S1's equality implies it) -/
+def AgreeBag (km : KindMap) (g : Graph) (t : Table) (r : List String × List (List Cy.CVal)) : Prop := (sqlRows t).Perm (cyRows g km r)
+
+/-- `tr2` answers only inside S1 ∪ S2a -/
+theorem tr2_some (km : KindMap) (q : Cy.Query) (st : Stmt) (ps : List (String × Val)) (h : tr2 km q = some (st, ps)) :
+    tr km q = some (st, ps) ∨ (∃ s : S2.Query, ofCy2 q = some s ∧ s.toCy = q ∧ s.tr km = some st ∧ ps = []) := by
+  unfold tr2 at h
+  cases h1 : tr km q with
+  | some r => rw [h1] at h; cases h; exact Or.inl rfl
+  | none =>
+    rw [h1] at h
+    cases ho : ofCy2 q with
+    | none => rw [ho] at h; cases h
+    | some s =>
+      rw [ho] at h
+      simp only [Option.map_eq_some_iff] at h
+      obtain ⟨st', hst, heq⟩ := h
+      cases heq
+      exact Or.inr ⟨s, rfl, ofCy2_sound q s ho, hst, rfl⟩
+
+/-- `tr_sound_S2`: for every graph satisfying `GraphOK2` (GraphOK + unique relationship ids + known relationship kinds) and every query on
+which the model translator answers (stage S1 or S2a): whenever the emitted statement evaluates, the reference semantics yields a result and
+the SQL rows are a permutation of its rows (equal lists for S1) -/
+theorem tr_sound_S2 (km : KindMap) (g : Graph) (q : Cy.Query) (st : Stmt) (ps : List (String × Val)) (hok : GraphOK2 km g)
+    (h : tr2 km q = some (st, ps)) (t : Table) (ht : Sql.eval (encode km g) st ps = .ok t) :
+    ∃ r, Cy.eval .none g q = .ok r ∧ AgreeBag km g t r := by
+  rcases tr2_some km q st ps h with h1 | ⟨s, _, hq, hst, hps⟩
+  · obtain ⟨r, hr, hag⟩ := tr_sound_S1 km g q st ps hok.toGraphOK h1 t ht
+    exact ⟨r, hr, by unfold AgreeBag; rw [show sqlRows t = cyRows g km r from hag]⟩
+  · subst hps hq
+    obtain ⟨r, t', hr, ht', hperm⟩ := s2_total km g hok s st hst
+    rw [ht'] at ht; cases ht
+    exact ⟨r, hr, hperm⟩
+
+/-- on S2a the emitted statement always evaluates in the model (no error of any class); on S1 see `tr_no_runtime_error` -/
+theorem tr2_no_runtime_error (km : KindMap) (g : Graph) (q : Cy.Query) (st : Stmt) (ps : List (String × Val)) (hok : GraphOK2 km g)
+    (h : tr2 km q = some (st, ps)) (e : EErr) (he : Sql.eval (encode km g) st ps = .error e) : ∃ w, e = .unmodelled w := by
+  rcases tr2_some km q st ps h with h1 | ⟨s, _, hq, hst, hps⟩
+  · exact tr_no_runtime_error km g q st ps hok.toGraphOK h1 e he
+  · subst hps hq
+    obtain ⟨r, t', _, ht', _⟩ := s2_total km g hok s st hst
+    rw [ht'] at he; cases he
+
+/-- THE PROVED PART, both stages: the full statement's body (bag form) holds for `tr2` -/
+def C01_bag_for (T : KindMap → Cy.Query → Option (Stmt × List (String × Val))) : Prop :=
+  ∀ (km : KindMap) (g : Graph) (q : Cy.Query) (st : Stmt) (ps : List (String × Val)), GraphOK2 km g → T km q = some (st, ps) →
+    (∀ t, Sql.eval (encode km g) st ps = .ok t → ∃ r, Cy.eval .none g q = .ok r ∧ AgreeBag km g t r) ∧
+    (∀ m, Sql.eval (encode km g) st ps ≠ .error (.runtime m))
+
+theorem c01_partial_S2 : C01_bag_for tr2 := by
+  intro km g q st ps hok h
+  refine ⟨fun t ht => tr_sound_S2 km g q st ps hok h t ht, ?_⟩
+  intro m hm
+  obtain ⟨w, hw⟩ := tr2_no_runtime_error km g q st ps hok h _ hm
+  cases hw
+
+theorem ofCy2_sound (q : Cy.Query) (s : S2.Query) (h : ofCy2 q = some s) : s.toCy = q := Proofs.ofCy2_sound q s h
+
+theorem graphOK2_of_check (km : KindMap) (g : Graph) (h : graphOK2b km g = true) : GraphOK2 km g := graphOK2b_sound km g h
+
 /-! ### key lemmas -/
 
 /-- `kind_match_encode`: under `encode`, `kind_ids @> ARRAY[ids of ks]` is exactly "the node carries every kind in ks"
@@ -158,5 +221,14 @@ def exS : S1.Query :=
 
 /-- the stage is inhabited: `tr` answers on this query, and the theorems' hypotheses hold on `exG` -/
 example : (tr exKm exS.toCy).isSome = true := by decide +kernel
+
+def exE1 : EdgeRec := { id := 10, start := 1, stop := 2, kind := "MemberOf", props := [("w", .num ⟨1, 0⟩)] }
+def exE2 : EdgeRec := { id := 11, start := 2, stop := 2, kind := "MemberOf", props := [] }
+def exG2 : Graph := { nodes := exG.nodes, edges := [exE1, exE2] }
+def exKm2 : KindMap := exKm ++ [("MemberOf", 3)]
+def exS2 : S2.Query := { a := "a", r := "r", b := "b", akinds := ["User"], rkinds := ["MemberOf"], bkinds := [], items := [.ent .a none, .prop .r "w" (some "w"), .idOf .b none] }
+
+theorem exG2_ok : GraphOK2 exKm2 exG2 := graphOK2b_sound exKm2 exG2 (by decide)
+example : (tr2 exKm2 exS2.toCy).isSome = true := by decide +kernel
 
 end Dawgs.C01.Props
